@@ -48,6 +48,7 @@ func init() {
 		}
 		an := efx.NewAnalyzer(p)
 		EFXReadOnlyTypes(c, "default", an)
+		EFXReadOnlyTargets(c, "default", an)
 		c.R.Extra["efx_stats"] = an.Stats
 	}})
 }
